@@ -276,6 +276,10 @@ def judge_exchange(case, obs, responses, prop="C03"):
             if "err" in m:
                 raise core.Infra(f"driver error: {m['err']}")
             m = m["ok"]
+            if r.get("starved"):
+                # not answered while another client's connection was stalled mid-request
+                fail_spec("starved_by_stalled_client", dict(where, evidence=r.get("evidence")))
+                continue
             if is_raw(rq):
                 if r.get("refused"):
                     fail_spec("refused", where)
@@ -285,12 +289,13 @@ def judge_exchange(case, obs, responses, prop="C03"):
                 exp = rq.get("expect", "error")
                 raw = bytes.fromhex(r.get("raw", ""))
                 simple = simple_error_code(raw)
+                body0 = bytes.fromhex(((case["handlers"] or [{}])[0].get("result") or {}).get("body") or "")
                 if exp == "http09":
                     # a valid simple request is answered HTTP/0.9 style: the entity only, no status line
-                    if raw != bytes.fromhex(case["handlers"][0]["result"]["body"]) and simple is None:
+                    if raw != body0 and simple is None:
                         fail_spec("c09_response", dict(where, raw_head=raw[:200].hex()))
                     continue
-                if exp == "any" and raw == bytes.fromhex(case["handlers"][0]["result"]["body"]):
+                if exp == "any" and raw == body0:
                     continue    # the bytes happened to form a valid HTTP/0.9 simple request
                 if simple is not None:
                     # request without a usable HTTP version: http.server answers HTTP/0.9 style with the bare
@@ -733,6 +738,15 @@ def gen_c09_http(rng, tier, mult=1, include_abort=False):
                 phases = [[dict(rq), dict(rq), liveness_request(1000 + i)], [liveness_request(i)]]
             yield exchange_case([ok], phases, bind=rng.choice(["::1", "::", "::ffff:127.0.0.1"]),
                                 meta={"kind": "c09-http/" + label})
+        # clients that stall mid-request (connection open, nothing more sent) while others are to be served
+        stalls = [b"", b"G", b"GET / HTTP/1.1", b"GET / HTTP/1.1\r\n", b"GET / HTTP/1.1\r\nHost: x\r\n",
+                  b"POST / HTTP/1.0\r\nContent-Length: 10\r\n\r\nabc", b"BREW / HTTP/1.0\r\nX: y"]
+        for i, raw in enumerate(stalls):
+            hold = {"raw": raw.hex(), "half_close": True, "hold": True, "expect": "any", "is_head": False}
+            for k in (1, 3):
+                phases = [[dict(hold) for _ in range(k)] + [liveness_request(2000 + i), liveness_request(3000 + i)],
+                          [liveness_request(i)]]
+                yield exchange_case([ok], phases, bind="::1", meta={"kind": "c09-http/stalled-client"})
         if include_abort:
             big = {"accept": "yes", "result": {"kind": "ret", "status": 200, "headers": [], "body": None,
                                                "body_gen": {"len": 4 << 20, "mul": 1, "add": 0, "off": 0}}}
